@@ -64,6 +64,13 @@ class LDMService:
             subscriptions = self.subscriptions.copy()
         subscriptions_to_remove = set()
         for subscription in subscriptions:
+            # A consumer that has been deregistered is not notified any more.
+            if (
+                subscription.subscription_request.application_id
+                not in self.get_data_consumer_its_aid()
+            ):
+                subscriptions_to_remove.add(subscription)
+                continue
             search_result = self.search_data(subscription)
             if not search_result:
                 continue
@@ -81,12 +88,6 @@ class LDMService:
                 if ordered_sequences:
                     ordered_search_result = ordered_sequences[0]
             self.process_notifications(subscription, ordered_search_result)
-            data_consumer_its_aid = self.get_data_consumer_its_aid()
-            if (
-                subscription.subscription_request.application_id
-                not in data_consumer_its_aid
-            ):
-                subscriptions_to_remove.add(subscription)
         for subscription in subscriptions_to_remove:
             self.remove_subscription(subscription)
 
